@@ -66,11 +66,15 @@ def identSetter (id cls f note : String) (dirtyAfter : Bool) : Entry :=
             (if dirtyAfter then [dirty] else [])) }
 
 /-- `insertX(index, x)`: `arg 0` index, `arg 1` object, `arg 2` = "an assertion rejects it" (already a
-member, owned by another parent, duplicate identifier) -/
+member, owned by another parent, duplicate identifier).  The code checks the identifiers BEFORE the
+will-notification (a rejected object is not announced) and AGAIN after it, just before registering them
+(an observer of the will might have given the object an identifier): for observers that only read, the
+second check repeats the first. -/
 def insertEntry (id cls method will did f : String) (extra : List Atom := []) : Entry :=
   { id := id, cls := cls, srcCls := cls, method := method,
     body := A ([reject (arg 2),
              post will .will (some (arg 1)) none none (mem subj (fld f)),
+             reject (arg 2),
              set f (insertAt (fld f) (arg 0) (arg 1)),
              post did .did none none none (fld f)] ++ extra ++ [dirty]) }
 
@@ -445,11 +449,13 @@ def layerSetDel : Entry :=
              post "LayerSet.LayersChanged" .plain none none none (fld "names"),
              dirty] }
 
-/-- `font.glyphOrder = value`: `arg 1` = "value is None or empty" -/
+/-- `font.glyphOrder = value`: `arg 1` = "value is None or empty"; an empty order assigned to a font
+that has none changes nothing and returns -/
 def fontGlyphOrder : Entry :=
   { id := "Font.glyphOrder=", cls := "Font", srcCls := "Font", method := "_set_glyphOrder",
     body := A [capture 0 (fld "glyphOrder"), guard (ne (var 0) (arg 0)),
              capture 1 (ite (arg 1) (lit .none) (arg 0)),
+             guard (.not (.and (arg 1) (isNone (var 0)))),
              nested (setOrUnset "glyphOrder" (var 1)),
              post "Font.GlyphOrderChanged" .plain none (some (var 0)) (some (var 1)) (fld "glyphOrder")] }
 
@@ -491,7 +497,7 @@ def groupsSetItem := dictSetItem "Groups" "Groups.GroupSet"
 /-- `images[name] = data`: `arg 0` = name, `arg 1` = "a validity assertion fails",
 `arg 2` = "name is scheduled for deletion", `arg 3` = "same digest as the stored image" -/
 def imageSetSetItem : Entry :=
-  { id := "ImageSet.__setitem__", cls := "ImageSet", srcCls := "ImageSet", method := "__setitem__",
+  { id := "ImageSet.__setitem__", cls := "ImageSet", srcCls := "ImageSet", method := "_setImage",
     body := A [reject (arg 1), capture 0 (.not (mem (arg 0) (fld "names"))),
              when (arg 2) (nested (set "names" (sinsert (fld "names") (arg 0)))),
              capture 1 (mem (arg 0) (fld "names")),
